@@ -41,10 +41,10 @@ def wrap_ret(pred, ret):
 
 
 def gen(rng, i, tier):
-    if rng.random() < 0.06:
+    if rng.random() < 0.10:
         # the solve_bruteforce method the problem classes inherit: it solves the formulation built from its own arguments
         from props import c10
-        return {"form": "problem", "inst": c10.gen(rng, rng.choice([0, 1, 2, 4, 6]), tier), "fn": "qubo", "pred": "all", "all": True}
+        return {"form": "problem", "inst": c10.gen(rng, rng.choice([4, 4, 4, 0, 1, 2, 6]), tier), "fn": "qubo", "pred": "all", "all": True}
     c = gen_(rng, i, tier)
     c["ret"] = rng.choice(["bool", "bool", "int", "none", "npbool"])
     return c
@@ -89,8 +89,20 @@ def gen_(rng, i, tier):
     if kind and not kind.endswith("Matrix") and t and rng.random() < 0.25:
         stale = [rng.choice([k for k, _ in t])]
     pred = rng.choice(["all", "all", "all", "none", "parity", "cardle", "cardge"])
+    # labelled objects: a numbering chosen by the user (set_mapping / set_reverse_mapping with a permutation), then one more
+    # variable -- the solvers enumerate through reverse_mapping, which has to stay a bijection onto 0..n-1
+    remap, newvar = None, None
+    if kind and not kind.endswith("Matrix") and t and rng.random() < 0.3:
+        from props import c04
+        remap = c04.gen_remap(rng) or {"how": rng.choice(["map", "rmap"]), "seed": rng.randrange(10 ** 6)}
+        used = {x for k, _ in t for x in k}
+        free = [l for l in (C.POOL if uni == 'pool' else range(8)) if l not in used]
+        if free and rng.random() < 0.7:
+            c = G.coef(rng, ints=True)
+            newvar = [C.enc(rng.choice(free)), [c.numerator, c.denominator]]
     return {"fn": fn, "kind": kind, "form": form, "terms": G.jraw(t), "stale": [[C.enc(x) for x in k] for k in stale],
-            "all": rng.random() < 0.5, "pred": pred if form != "method" else "all", "k": rng.randint(0, 3)}
+            "all": rng.random() < 0.5, "pred": pred if form != "method" else "all", "k": rng.randint(0, 3),
+            "remap": remap, "newvar": newvar}
 
 
 def build(case):
@@ -101,6 +113,11 @@ def build(case):
     m = cls_of(case["kind"])(d)
     for k in case["stale"]:
         m[tuple(C.dec(x) for x in k)] = 0       # the key goes, its cached variables stay
+    if case.get("remap"):
+        from props import c04
+        c04.apply_remap(m, case["remap"])
+    if case.get("newvar"):
+        m[(C.dec(case["newvar"][0]),)] += C.num(F(*case["newvar"][1]))
     return m
 
 
